@@ -687,6 +687,9 @@ func c09Run(c *core.Ctx) {
 		if c.Begin("pair", j.name, map[string]string{"accessor": j.name, "annotation": j.annText}) {
 			c09Pair1(c, p, thorough)
 		}
+		if c09FileChanged(j.t.Name) && c.Begin("pair-deep", j.name, map[string]string{"accessor": j.name, "element_file_differs_from_the_pinned_tree": "NAS_" + j.t.Name + ".go"}) {
+			c09Deep(c, p)
+		}
 	}
 	// the mask helper behind the generated accessors, for every (ub, lb) and every ordered pair of calls; a failure is
 	// recorded with the complete call history of the process so far (self-contained even if the helper keeps state)
